@@ -50,6 +50,8 @@ type rworld struct {
 	sentIDs   map[int]bool // identifiers handed to some Send
 	seenIDs   map[int]bool // identifiers that arrived somewhere
 	corrupt   int          // arrivals with an identifier nobody sent, or a second arrival of one
+	connInc   map[network.Conn]int
+	heldConn  network.Conn
 	busy      int // error handlers that are running and not (yet) parked in the blocking gate
 	hsend     int
 	ncalls    int
@@ -120,6 +122,9 @@ func (w *rworld) startPeer(p *rpeer, first bool) error {
 	cnt := new(int32)
 	r.RegisterProcessorFunc(tmsgType, func(env *network.Envelope) error {
 		w.arrived(env)
+		if m, ok := env.Msg.(*TMsg); ok && m.ID >= 1000000 {
+			return nil // sent by a re-entrant handler: its arrival is not synchronised with the operations
+		}
 		atomic.AddInt32(cnt, 1)
 		return nil
 	})
@@ -134,7 +139,7 @@ func (w *rworld) startPeer(p *rpeer, first bool) error {
 }
 
 func newRworld(tcp bool, np, nh, hsend int) (*rworld, error) {
-	w := &rworld{tcp: tcp, hsend: hsend, sentIDs: map[int]bool{}, seenIDs: map[int]bool{}, reent: make(chan reentReq), done: make(chan struct{}), armed: -1, blockedOn: -1, blockedHit: make(chan struct{}, 4), release: make(chan struct{})}
+	w := &rworld{tcp: tcp, hsend: hsend, sentIDs: map[int]bool{}, seenIDs: map[int]bool{}, connInc: map[network.Conn]int{}, reent: make(chan reentReq), done: make(chan struct{}), armed: -1, blockedOn: -1, blockedHit: make(chan struct{}, 4), release: make(chan struct{})}
 	if !tcp {
 		w.lm = network.NewLocalManager()
 	}
@@ -250,20 +255,60 @@ const settleDeadline = 15 * time.Second
 
 // settle waits until S has noticed every death: a peer that is down (or any peer once S is
 // closed) has no registered connection left, except the one whose loop is blocked in a handler.
-func (w *rworld) settle() bool {
-	ok := waitUntil(func() bool {
-		w.mu.Lock()
-		defer w.mu.Unlock()
-		return w.busy == 0
-	}, settleDeadline)
-	for p, pe := range w.peers {
-		if pe.up && !w.closed {
-			continue
+// tag remembers, for every connection registered at S, the incarnation of the peer it was made with
+// (-1: the peer was already down when the connection appeared).
+func (w *rworld) tag() {
+	for _, pe := range w.peers {
+		l, ok := connListBounded(w.S, pe.si.GetID())
+		if !ok {
+			return
 		}
+		w.mu.Lock()
+		for _, c := range l {
+			if _, seen := w.connInc[c]; !seen {
+				if pe.up {
+					w.connInc[c] = len(pe.routers)
+				} else {
+					w.connInc[c] = -1
+				}
+			}
+		}
+		w.mu.Unlock()
+	}
+}
+
+// deadConns counts the registered connections of S with p whose far end is gone: made with an
+// earlier incarnation, or the peer is down, or S itself is closed.
+func (w *rworld) deadConns(p int) (int, bool) {
+	pe := w.peers[p]
+	l, ok := connListBounded(w.S, pe.si.GetID())
+	if !ok {
+		return 0, false
+	}
+	w.mu.Lock()
+	defer w.mu.Unlock()
+	n := 0
+	for _, c := range l {
+		inc, seen := w.connInc[c]
+		if w.closed || !pe.up || (seen && inc != len(pe.routers)) {
+			n++
+		}
+	}
+	return n, true
+}
+
+// settle waits until S has noticed every death: no handler call is in progress, and no registered
+// connection whose far end is gone is left, except the one whose loop is parked in the blocking
+// handler. (Which connections are dead is known from the operations, not from timing.)
+func (w *rworld) settle() bool {
+	w.tag()
+	ok := true
+	for p, pe := range w.peers {
 		p := p
 		pe := pe
 		last, lastChange := -1, time.Now()
 		ok = waitUntil(func() bool {
+			w.tag()
 			w.mu.Lock()
 			want := 0
 			if w.blockedOn == p {
@@ -275,25 +320,31 @@ func (w *rworld) settle() bool {
 			if busy > 0 {
 				return false
 			}
-			n := w.tabCount(p)
-			if armed >= 0 && n > want+pe.zombies {
-				// a handler is armed: the first loop to arrive will block and keep its entry
+			dead, answered := w.deadConns(p)
+			if !answered {
 				return false
 			}
+			if armed >= 0 && dead > want {
+				// a handler is armed: the first loop to arrive will park there and keep its entry
+				return false
+			}
+			if dead > want {
+				return false
+			}
+			if pe.zombies == 0 || pe.up {
+				return true
+			}
+			// the last dial of a stopping peer reaches S on its own time: wait until the table of
+			// that peer has not changed for a while
+			n := w.tabCount(p)
 			if n != last {
 				last, lastChange = n, time.Now()
 			}
-			// a connection abandoned (not closed) by a stopping peer never goes away by itself
-			if pe.zombies == 0 {
-				return n <= want
-			}
-			// (a re-entrant handler that sends to the lost peer spends up to 0.5 s in dial retries
-			// on the in-memory transport before its loop goes on)
 			window := 250 * time.Millisecond
 			if w.hsend > 0 {
 				window = 900 * time.Millisecond
 			}
-			return n <= want+pe.zombies && time.Since(lastChange) > window
+			return time.Since(lastChange) > window
 		}, settleDeadline) && ok
 	}
 	return ok
@@ -347,10 +398,26 @@ func (w *rworld) exec(o *opj) (int, bool, bool) {
 		S := w.S
 		g := w.sched.Block("router.connected", 1, func(args []interface{}) bool {
 			r, ok := args[0].(*network.Router)
+			if ok && r == S && len(args) > 2 {
+				if c, isConn := args[2].(network.Conn); isConn {
+					w.mu.Lock()
+					w.heldConn = c
+					w.mu.Unlock()
+				}
+			}
 			return ok && r == S
 		})
 		before := w.curCount(o.P)
 		w.markSent(o.M...)
+		peerConns := func() int {
+			pe := w.peers[o.P]
+			if !pe.up {
+				return 0
+			}
+			l, _ := connListBounded(pe.routers[len(pe.routers)-1], w.S.ServerIdentity.GetID())
+			return len(l)
+		}
+		peerBefore := peerConns()
 		done := make(chan error, 1)
 		go func() {
 			_, err := w.S.Send(w.peers[o.P].si, tmsgs(o.M)...)
@@ -372,7 +439,16 @@ func (w *rworld) exec(o *opj) (int, bool, bool) {
 			}
 			if g.WaitHit(200 * time.Microsecond) {
 				w.heldGate, w.heldDone, w.heldPeer, w.heldMsgs = g, done, o.P, len(o.M)
-				return 0, false, false
+				// the identity has been sent: the far end registers the connection while S is held. Wait
+				// for that, so that a crash of the peer during the hold finds the connection in its table
+				// (otherwise the peer's Stop does not know it yet and S's write after the resume is accepted)
+				w.mu.Lock()
+				if w.heldConn != nil {
+					w.connInc[w.heldConn] = len(w.peers[o.P].routers) // made with the incarnation that is up now
+				}
+				w.mu.Unlock()
+				ok := waitUntil(func() bool { return peerConns() > peerBefore }, 15*time.Second)
+				return 0, false, !ok
 			}
 			if time.Now().After(deadline) {
 				g.Release()
